@@ -11,6 +11,11 @@ import (
 	"golang.org/x/telemetry/internal/verifshim/sched"
 )
 
+// PrivateLocks, if set, tells the shim that every mutex and once is private
+// to one single-threaded emulated process: acquiring it is not a scheduling
+// point.
+var PrivateLocks bool
+
 type Mutex struct {
 	mu    sync.Mutex
 	held  bool
@@ -23,7 +28,11 @@ func (m *Mutex) Lock() {
 		m.held = true
 		return
 	}
-	sched.PointIf("lock", uintptr(unsafe.Pointer(m)), func() bool { return !m.held })
+	if !PrivateLocks {
+		sched.PointIf("lock", uintptr(unsafe.Pointer(m)), func() bool { return !m.held })
+	} else if m.held {
+		panic("vsync: private mutex is contended")
+	}
 	m.mu.Lock()
 	m.held = true
 	m.owner = sched.Current()
@@ -77,7 +86,9 @@ func (o *Once) Do(f func()) {
 		f()
 		return
 	}
-	sched.PointIf("once", uintptr(unsafe.Pointer(o)), func() bool { return !o.running })
+	if !PrivateLocks {
+		sched.PointIf("once", uintptr(unsafe.Pointer(o)), func() bool { return !o.running })
+	}
 	if o.done {
 		sched.Observe(1)
 		return
